@@ -27,8 +27,11 @@ import copy
 
 
 def _closure(prog, k):
+    """steps step k depends on: its dataflow closure, plus every earlier step that modifies one of those values in place
+    (directly, or through a documented view of it), with their own closures"""
+    from dsim import ops as _ops
+    _ops._load()
     names = {st['r']: i for i, st in enumerate(prog)}
-    seen, todo = set(), [k]
 
     def refs(v):
         if isinstance(v, dict):
@@ -39,15 +42,46 @@ def _closure(prog, k):
         elif isinstance(v, list):
             for w in v:
                 yield from refs(w)
-    while todo:
-        i = todo.pop()
-        if i in seen:
-            continue
-        seen.add(i)
-        for n in refs([prog[i].get('a', []), prog[i].get('kw', {})]):
-            if n in names:
-                todo.append(names[n])
-    return seen
+    # alias groups (union-find over result names): in-place ops return their argument, view ops return a view of it
+    parent = {}
+
+    def find(x):
+        parent.setdefault(x, x)
+        while parent[x] != x:
+            parent[x] = parent[parent[x]]
+            x = parent[x]
+        return x
+    inplace_of = {}
+    for i, st in enumerate(prog):
+        od = _ops.OPS.get(st['op'])
+        tgt = []
+        if od is not None:
+            for pos in od.inplace:
+                a = st.get('a', [])[pos] if isinstance(pos, int) and pos < len(st.get('a', [])) else (st.get('kw') or {}).get(pos)
+                if isinstance(a, dict) and '$' in a:
+                    tgt.append(a['$'])
+            if st['op'] in _ops.VIEW_OPS:
+                a0 = st.get('a', [None])[0]
+                if isinstance(a0, dict) and '$' in a0:
+                    parent[find(st['r'])] = find(a0['$'])
+        for t in tgt:
+            parent[find(st['r'])] = find(t)
+        inplace_of[i] = tgt
+    seen, todo = set(), [k]
+    while True:
+        while todo:
+            i = todo.pop()
+            if i in seen:
+                continue
+            seen.add(i)
+            for n in refs([prog[i].get('a', []), prog[i].get('kw', {})]):
+                if n in names:
+                    todo.append(names[n])
+        groups = {find(prog[i]['r']) for i in seen}
+        more = [i for i in range(k) if i not in seen and any(find(t) in groups for t in inplace_of.get(i, []))]
+        if not more:
+            return seen
+        todo.extend(more)
 
 
 def _drop_steps(job, cid, drop):
